@@ -162,3 +162,13 @@ pub use crate::algorithm::kalman_verif_hook as kalman;
 pub use crate::algorithm::{
     InternalMeasurement, InternalSourceController, InternalStateUpdate, InternalTimeSyncController,
 };
+
+// --- C33
+pub use crate::source::SourceSnapshot;
+pub fn reach_with(received: bool) -> crate::Reach {
+    let mut r = crate::Reach::never();
+    if received {
+        r.received_packet();
+    }
+    r
+}
